@@ -213,9 +213,9 @@ Proof. exists 0, 0, false, (PublishProperties 5 48 2), [0; 0; 0; 0; 0], PS_sub_o
 
 (* and the invariant is exactly what is needed in that state: the step panics iff it is violated
    and the header is buffered *)
-Lemma v5_decode_total_wf_necessary mc npi pl fb rl src :
+Lemma v5_decode_total_wf_necessary mi mc npi pl fb rl src :
   rl < pl -> pl <= len src ->
-  dr_res (decode_step 0 mc npi (PublishProperties pl fb rl) src) = Panic PS_sub_overflow.
+  dr_res (decode_step mi mc npi (PublishProperties pl fb rl) src) = Panic PS_sub_overflow.
 Proof.
   intros H1 H2. cbn [decode_step]. rewrite step_publish_properties_eq. cbv zeta.
   replace (len src <? pl) with false by lia. replace (pl <=? rl) with false by lia. reflexivity.
@@ -276,6 +276,20 @@ Proof.
   - apply step_publish_properties_wf. cbn [dstate_wf] in W. lia.
   - apply step_publish_payload_wf.
 Qed.
+
+(* every state the decoder can get into from FrameHeader, whatever the buffers and flags it is run on,
+   satisfies the invariant, so no run of the decoder that starts in FrameHeader ever panics *)
+Inductive v5_reachable (mi mc : N) : dstate -> Prop :=
+| reach_init : v5_reachable mi mc FrameHeader
+| reach_step st npi src :
+    v5_reachable mi mc st -> v5_reachable mi mc (dr_state (decode_step mi mc npi st src)).
+
+Lemma v5_reachable_wf mi mc st : v5_reachable mi mc st -> dstate_wf st = true.
+Proof. induction 1; [reflexivity|]. now apply v5_wf_preserved. Qed.
+
+Corollary v5_reachable_total mi mc npi st src :
+  v5_reachable mi mc st -> nopanic (dr_res (decode_step mi mc npi st src)).
+Proof. intros H. apply v5_decode_total. now apply v5_reachable_wf in H. Qed.
 
 (* ================================================================== 2. the step consumes a prefix *)
 Lemma step_frame_sfx npi fb rl src : is_sfx src (dr_src (step_frame npi fb rl src)).
@@ -782,3 +796,409 @@ Proof.
   match goal with |- context [ensure (?a <? rl)] => replace (a <? rl) with false end; [reflexivity|].
   destruct (flags_qos fb =? 0); lia.
 Qed.
+
+(* ================================================================== 7. fragmentation independence (C10)
+   on the non-PUBLISH path: states FrameHeader / Frame only.  [drain] runs [decode_step] on the buffer
+   until it blocks (Ok None) or fails, collecting the items; [feed] appends the chunks one by one and
+   drains after each.  With the guard [g = true] the run stops with [SawPublish] as soon as it would
+   have to look at a PUBLISH first byte (or starts in a Publish* state), which makes the theorem
+   unconditional; a guarded run that does not end in [SawPublish] is an unguarded run. *)
+Inductive dstatus := Blocked | Failed (e : N) | Crashed (p : N) | SawPublish | NoFuel.
+Definition run_result := (list decoded * dstatus * dstate * bool * bytes)%type.
+Definition rr_status (R : run_result) : dstatus := snd (fst (fst (fst R))).
+Definition rr_app (l : list decoded) (R : run_result) : run_result :=
+  let '(its, o, st, npi, r) := R in (l ++ its, o, st, npi, r).
+
+Definition nonpubb (st : dstate) (buf : bytes) : bool :=
+  match st with
+  | FrameHeader => match buf with fb :: _ => negb (is_publish fb) | [] => true end
+  | Frame _ _ => true
+  | _ => false
+  end.
+
+Fixpoint drain (g : bool) (fuel : nat) (mi mc : N) (npi : bool) (st : dstate) (buf : bytes) : run_result :=
+  match fuel with
+  | O => ([], NoFuel, st, npi, buf)
+  | S f =>
+    if g && negb (nonpubb st buf) then ([], SawPublish, st, npi, buf)
+    else match decode_step mi mc npi st buf with
+         | (Ok None, st', npi', r) => ([], Blocked, st', npi', r)
+         | (Ok (Some it), st', npi', r) => rr_app [it] (drain g f mi mc npi' st' r)
+         | (Err e, st', npi', r) => ([], Failed e, st', npi', r)
+         | (Panic p, st', npi', r) => ([], Crashed p, st', npi', r)
+         end
+  end.
+
+Definition drain_fuel (buf : bytes) : nat := S (S (length buf)).
+
+(* after a failure the decoder is dead; the bytes that still arrive just pile up in the buffer *)
+Fixpoint feed (g : bool) (mi mc : N) (npi : bool) (st : dstate) (buf : bytes) (chunks : list bytes)
+  : run_result :=
+  match chunks with
+  | [] => ([], Blocked, st, npi, buf)
+  | c :: cs =>
+    match drain g (drain_fuel (buf ++ c)) mi mc npi st (buf ++ c) with
+    | (its, Blocked, st', npi', r) => rr_app its (feed g mi mc npi' st' r cs)
+    | (its, o, st', npi', r) => (its, o, st', npi', r ++ concat cs)
+    end
+  end.
+
+Lemma rr_app_nil R : rr_app [] R = R.
+Proof. destruct R as [[[[its o] st] npi] r]. reflexivity. Qed.
+Lemma rr_app_app l1 l2 R : rr_app l1 (rr_app l2 R) = rr_app (l1 ++ l2) R.
+Proof. destruct R as [[[[its o] st] npi] r]. cbn [rr_app]. now rewrite app_assoc. Qed.
+Lemma rr_status_app l R : rr_status (rr_app l R) = rr_status R.
+Proof. destruct R as [[[[its o] st] npi] r]. reflexivity. Qed.
+
+(* --- var-int at the front of a longer buffer *)
+Lemma dec_vi_err_app t x e : dec_vi t = Err e -> e <> DE_MalformedPacket -> dec_vi (t ++ x) = Err e.
+Proof.
+  unfold dec_vi. intros H Hne.
+  destruct t as [|a t]; cbn [dec_vi_go app] in *; [congruence|].
+  destruct (a <? 128); [discriminate|].
+  destruct t as [|b t]; cbn [dec_vi_go app] in *; [congruence|].
+  destruct (b <? 128); [discriminate|].
+  destruct t as [|c t]; cbn [dec_vi_go app] in *; [congruence|].
+  destruct (c <? 128); [discriminate|].
+  destruct t as [|d t]; cbn [dec_vi_go app] in *; [congruence|].
+  destruct (d <? 128); [discriminate|]. exact H.
+Qed.
+
+Lemma dec_vi_opt_app_some t x v c :
+  dec_vi_opt t = Ok (Some (v, c)) -> dec_vi_opt (t ++ x) = Ok (Some (v, c)) /\ 1 <= c <= len t.
+Proof.
+  unfold dec_vi_opt. destruct (dec_vi t) as [[v' r]|e|p] eqn:E;
+    [|destruct (e =? DE_MalformedPacket); discriminate|discriminate].
+  intros [= <- <-]. rewrite (dec_vi_app _ x _ _ E).
+  apply dec_vi_consumes in E as (p & -> & Hp). rewrite !llen_app.
+  split; [do 3 f_equal; lia|unfold len; lia].
+Qed.
+
+Lemma dec_vi_opt_app_err t x e : dec_vi_opt t = Err e -> dec_vi_opt (t ++ x) = Err e.
+Proof.
+  unfold dec_vi_opt. destruct (dec_vi t) as [[v' r]|e'|p] eqn:E; [discriminate| |discriminate].
+  destruct (e' =? DE_MalformedPacket) eqn:Ee; [discriminate|]. intros [= <-].
+  rewrite (dec_vi_err_app _ x _ E) by lia. rewrite Ee. reflexivity.
+Qed.
+
+(* --- step_frame on a longer buffer *)
+Lemma step_frame_app npi fb rl s x :
+  rl <= len s ->
+  step_frame npi fb rl (s ++ x) =
+  (dr_res (step_frame npi fb rl s), dr_state (step_frame npi fb rl s), dr_npi (step_frame npi fb rl s),
+   dr_src (step_frame npi fb rl s) ++ x).
+Proof.
+  intros H. rewrite !step_frame_eq. rewrite llen_app.
+  replace (len s + len x <? rl) with false by lia. replace (len s <? rl) with false by lia.
+  rewrite firstn_app_le, skipn_app_le by (unfold len in *; lia).
+  destruct (decode_packet fb (firstn (N.to_nat rl) s)); reflexivity.
+Qed.
+
+Lemma step_frame_blocked npi fb rl s :
+  len s < rl -> step_frame npi fb rl s = (Ok None, Frame fb rl, npi, s).
+Proof. intros H. rewrite step_frame_eq. replace (len s <? rl) with true by lia. reflexivity. Qed.
+
+Lemma step_frame_blocked_inv npi fb rl s st' npi' r :
+  step_frame npi fb rl s = (Ok None, st', npi', r) -> len s < rl /\ st' = Frame fb rl /\ npi' = npi /\ r = s.
+Proof.
+  rewrite step_frame_eq. destruct (len s <? rl) eqn:E.
+  - intros [= <- <- <-]. repeat split. lia.
+  - destruct (decode_packet fb (firstn (N.to_nat rl) s)); discriminate.
+Qed.
+
+Lemma step_frame_item_inv npi fb rl s it st' npi' r :
+  step_frame npi fb rl s = (Ok (Some it), st', npi', r) ->
+  rl <= len s /\ st' = FrameHeader /\ r = skipn (N.to_nat rl) s.
+Proof.
+  rewrite step_frame_eq. destruct (len s <? rl) eqn:E; [discriminate|].
+  destruct (decode_packet fb (firstn (N.to_nat rl) s)); try discriminate.
+  intros [= <- <- <- <-]. repeat split. lia.
+Qed.
+
+(* --- step_frame_header on the non-PUBLISH path *)
+Definition sfh_body (mi mc : N) (npi : bool) (fb : N) (tl : bytes) : dresult :=
+  match dec_vi_opt tl with
+  | Ok (Some (rl, c)) =>
+    if negb (mi =? 0) && (mi <? rl) then (Err DE_MaxSizeExceeded, FrameHeader, npi, fb :: tl)
+    else if is_publish fb then step_publish_header mc npi fb rl (skipn (N.to_nat (c + 1)) (fb :: tl))
+    else step_frame npi fb rl (skipn (N.to_nat (c + 1)) (fb :: tl))
+  | Ok None => (Ok None, FrameHeader, npi, fb :: tl)
+  | Err e => (Err e, FrameHeader, npi, fb :: tl)
+  | Panic p => (Panic p, FrameHeader, npi, fb :: tl)
+  end.
+
+Lemma sfh_cons mi mc npi fb tl :
+  tl <> [] -> step_frame_header mi mc npi (fb :: tl) = sfh_body mi mc npi fb tl.
+Proof.
+  destruct tl as [|b tl]; [congruence|]. intros _. unfold sfh_body. cbn [step_frame_header].
+  destruct (dec_vi_opt (b :: tl)) as [[[rl c]|]|e|p]; reflexivity.
+Qed.
+
+Lemma sfh_cases_np mi mc npi s :
+  nonpubb FrameHeader s = true ->
+  step_frame_header mi mc npi s = (Ok None, FrameHeader, npi, s) \/
+  (exists e, step_frame_header mi mc npi s = (Err e, FrameHeader, npi, s) /\
+             forall x, step_frame_header mi mc npi (s ++ x) = (Err e, FrameHeader, npi, s ++ x)) \/
+  (exists fb tl rl k, s = fb :: tl /\ is_publish fb = false /\ (1 <= k <= length s)%nat /\
+     step_frame_header mi mc npi s = step_frame npi fb rl (skipn k s) /\
+     forall x, step_frame_header mi mc npi (s ++ x) = step_frame npi fb rl (skipn k s ++ x)).
+Proof.
+  intros G. destruct s as [|fb [|b tl]]; [left; reflexivity|left; reflexivity|].
+  cbn [nonpubb] in G. apply negb_true_iff in G.
+  remember (b :: tl) as tl_ eqn:Et. assert (Hne : tl_ <> []) by (subst; discriminate).
+  assert (Hne' : forall x, tl_ ++ x <> []) by (intros x; subst; discriminate).
+  rewrite (sfh_cons _ _ _ _ _ Hne). unfold sfh_body.
+  destruct (dec_vi_opt tl_) as [[[rl c]|]|e|p] eqn:E.
+  - destruct (negb (mi =? 0) && (mi <? rl)) eqn:Eo.
+    + right; left. exists DE_MaxSizeExceeded. split; [reflexivity|]. intros x.
+      cbn [app]. rewrite (sfh_cons _ _ _ _ _ (Hne' x)). unfold sfh_body.
+      destruct (dec_vi_opt_app_some _ x _ _ E) as [-> _]. rewrite Eo. reflexivity.
+    + right; right. rewrite G. exists fb, tl_, rl, (N.to_nat (c + 1)). split; [reflexivity|].
+      destruct (dec_vi_opt_app_some _ [] _ _ E) as [_ Hc].
+      assert (Hk : (1 <= N.to_nat (c + 1) <= length (fb :: tl_))%nat).
+      { cbn [length]. unfold len in Hc. lia. }
+      split; [exact G|]. split; [exact Hk|]. split; [reflexivity|]. intros x.
+      cbn [app]. rewrite (sfh_cons _ _ _ _ _ (Hne' x)). unfold sfh_body.
+      destruct (dec_vi_opt_app_some _ x _ _ E) as [-> _]. rewrite Eo, G.
+      change (fb :: tl_ ++ x) with ((fb :: tl_) ++ x). rewrite skipn_app_le by lia. reflexivity.
+  - left. reflexivity.
+  - right; left. exists e. split; [reflexivity|]. intros x.
+    cbn [app]. rewrite (sfh_cons _ _ _ _ _ (Hne' x)). unfold sfh_body.
+    rewrite (dec_vi_opt_app_err _ x _ E). reflexivity.
+  - pose proof (dec_vi_opt_np tl_) as T. rewrite E in T. contradiction.
+Qed.
+
+(* --- one step of the non-PUBLISH path against a longer buffer *)
+Definition dmeas (st : dstate) (buf : bytes) : nat :=
+  (length buf + match st with Frame _ _ => 1 | _ => 0 end)%nat.
+
+Lemma np_step_item mi mc npi st s it st' npi' r x :
+  nonpubb st s = true -> decode_step mi mc npi st s = (Ok (Some it), st', npi', r) ->
+  decode_step mi mc npi st (s ++ x) = (Ok (Some it), st', npi', r ++ x) /\
+  (dmeas st' r < dmeas st s)%nat /\ nonpubb st (s ++ x) = true.
+Proof.
+  intros G E. destruct st as [|fb rl|fb rl|pl fb rl|rem]; cbn [nonpubb] in G; try discriminate;
+    cbn [decode_step] in *.
+  - destruct (sfh_cases_np mi mc npi s G) as [E0|[(e & E0 & _)|(fb & tl & rl & k & Es & Hp & Hk & E0 & Ex)]];
+      try (rewrite E0 in E; discriminate).
+    rewrite E0 in E. rewrite Ex. destruct (step_frame_item_inv _ _ _ _ _ _ _ _ E) as (Hl & -> & ->).
+    rewrite (step_frame_app _ _ _ _ x Hl), E. split; [reflexivity|]. split.
+    + unfold dmeas. rewrite !skipn_length. lia.
+    + subst s. cbn [app nonpubb]. now rewrite Hp.
+  - destruct (step_frame_item_inv _ _ _ _ _ _ _ _ E) as (Hl & -> & ->).
+    rewrite (step_frame_app _ _ _ _ x Hl), E. split; [reflexivity|]. split; [|reflexivity].
+    unfold dmeas. rewrite !skipn_length. lia.
+Qed.
+
+Lemma np_step_err mi mc npi st s e st' npi' r x :
+  nonpubb st s = true -> decode_step mi mc npi st s = (Err e, st', npi', r) ->
+  decode_step mi mc npi st (s ++ x) = (Err e, st', npi', r ++ x) /\ nonpubb st (s ++ x) = true.
+Proof.
+  intros G E. split; [|destruct st; try discriminate; [|reflexivity]; destruct s as [|a s];
+    [cbn [decode_step step_frame_header] in E; discriminate|exact G]].
+  destruct st as [|fb rl|fb rl|pl fb rl|rem]; cbn [nonpubb] in G; try discriminate;
+    cbn [decode_step] in *.
+  - destruct (sfh_cases_np mi mc npi s G) as [E0|[(e0 & E0 & Ex)|(fb & tl & rl & k & Es & Hp & Hk & E0 & Ex)]].
+    + rewrite E0 in E; discriminate.
+    + rewrite E0 in E. injection E as <- <- <- <-. apply Ex.
+    + rewrite E0 in E. rewrite Ex.
+      destruct (N.leb_spec rl (len (skipn k s))) as [Hl|Hl].
+      * rewrite (step_frame_app _ _ _ _ x Hl), E. reflexivity.
+      * rewrite (step_frame_blocked _ _ _ _ Hl) in E. discriminate.
+  - destruct (N.leb_spec rl (len s)) as [Hl|Hl].
+    + rewrite (step_frame_app _ _ _ _ x Hl), E. reflexivity.
+    + rewrite (step_frame_blocked _ _ _ _ Hl) in E. discriminate.
+Qed.
+
+Lemma np_step_nopanic mi mc npi st s p st' npi' r :
+  nonpubb st s = true -> decode_step mi mc npi st s <> (Panic p, st', npi', r).
+Proof.
+  intros G E. assert (W : dstate_wf st = true) by (destruct st; try discriminate; reflexivity).
+  pose proof (v5_decode_total mi mc npi st s W) as T. rewrite E in T. exact T.
+Qed.
+
+(* a blocked step: the state it leaves is itself blocked on what is left (idempotent), and decoding
+   the longer buffer from the old state is decoding it from the new one *)
+Lemma np_step_blocked mi mc npi st s st' npi' r :
+  nonpubb st s = true -> decode_step mi mc npi st s = (Ok None, st', npi', r) ->
+  npi' = npi /\ nonpubb st' r = true /\ decode_step mi mc npi st' r = (Ok None, st', npi, r) /\
+  (dmeas st' r <= dmeas st s)%nat /\
+  forall x, decode_step mi mc npi st (s ++ x) = decode_step mi mc npi st' (r ++ x) /\
+            ((st' = st /\ r = s) \/ (nonpubb st (s ++ x) = true /\ nonpubb st' (r ++ x) = true)).
+Proof.
+  intros G E. destruct st as [|fb rl|fb rl|pl fb rl|rem]; cbn [nonpubb] in G; try discriminate;
+    cbn [decode_step] in *.
+  - destruct (sfh_cases_np mi mc npi s G) as [E0|[(e0 & E0 & Ex)|(fb & tl & rl & k & Es & Hp & Hk & E0 & Ex)]].
+    + rewrite E0 in E. injection E as <- <- <-. cbn [decode_step].
+      split; [reflexivity|]. split; [exact G|]. split; [exact E0|]. split; [lia|].
+      intros x. split; [reflexivity|]. left. split; reflexivity.
+    + rewrite E0 in E. discriminate.
+    + rewrite E0 in E. destruct (step_frame_blocked_inv _ _ _ _ _ _ _ E) as (Hl & -> & -> & ->).
+      cbn [decode_step nonpubb]. split; [reflexivity|]. split; [reflexivity|].
+      split; [apply step_frame_blocked; exact Hl|].
+      split; [unfold dmeas; rewrite skipn_length; lia|]. intros x. split; [apply Ex|].
+      right. subst s. cbn [app nonpubb]. rewrite Hp. split; reflexivity.
+  - destruct (step_frame_blocked_inv _ _ _ _ _ _ _ E) as (Hl & -> & -> & ->).
+    cbn [decode_step nonpubb]. split; [reflexivity|]. split; [reflexivity|].
+    split; [apply step_frame_blocked; exact Hl|]. split; [lia|].
+    intros x. split; [reflexivity|]. left. split; reflexivity.
+Qed.
+
+Lemma nonpubb_app_false st s x : nonpubb st s = false -> nonpubb st (s ++ x) = false.
+Proof. destruct st; cbn [nonpubb]; try discriminate; auto. destruct s; [discriminate|]. cbn [app]. auto. Qed.
+
+Lemma dmeas_app st s x : dmeas st (s ++ x) = (dmeas st s + length x)%nat.
+Proof. unfold dmeas. rewrite app_length. lia. Qed.
+
+Lemma dmeas_fuel st s : (dmeas st s < drain_fuel s)%nat.
+Proof. unfold dmeas, drain_fuel. destruct st; lia. Qed.
+
+(* --- fuel is irrelevant once it covers the measure *)
+Lemma drain_fuel_irrel mi mc f1 : forall f2 st npi buf,
+  (dmeas st buf < f1)%nat -> (dmeas st buf < f2)%nat ->
+  drain true f1 mi mc npi st buf = drain true f2 mi mc npi st buf.
+Proof.
+  induction f1 as [|f1 IH]; intros f2 st npi buf H1 H2; [lia|]. destruct f2 as [|f2]; [lia|].
+  cbn [drain andb]. destruct (nonpubb st buf) eqn:G; cbn [negb]; [|reflexivity].
+  destruct (decode_step mi mc npi st buf) as [[[[[it|]|e|p] st'] npi'] r] eqn:E; try reflexivity.
+  destruct (np_step_item _ _ _ _ _ _ _ _ _ [] G E) as (_ & Hm & _).
+  f_equal. apply IH; lia.
+Qed.
+
+(* --- draining s, then (if blocked) draining what is left plus x, is draining s ++ x *)
+Lemma drain_app mi mc f : forall st npi s, (dmeas st s < f)%nat ->
+  forall its o st1 npi1 r1, drain true f mi mc npi st s = (its, o, st1, npi1, r1) ->
+  match o with
+  | Blocked =>
+    nonpubb st1 r1 = true /\ decode_step mi mc npi1 st1 r1 = (Ok None, st1, npi1, r1) /\
+    forall x f' f'', (dmeas st1 (r1 ++ x) < f')%nat -> (dmeas st (s ++ x) < f'')%nat ->
+      drain true f'' mi mc npi st (s ++ x) = rr_app its (drain true f' mi mc npi1 st1 (r1 ++ x))
+  | Failed _ | SawPublish =>
+    forall x f'', (dmeas st (s ++ x) < f'')%nat ->
+      drain true f'' mi mc npi st (s ++ x) = (its, o, st1, npi1, r1 ++ x)
+  | Crashed _ | NoFuel => False
+  end.
+Proof.
+  induction f as [|f IH]; intros st npi s Hf its o st1 npi1 r1 D; [lia|].
+  cbn [drain andb] in D. destruct (nonpubb st s) eqn:G; cbn [negb] in D.
+  2:{ injection D as <- <- <- <- <-. intros x f'' Hf''. destruct f'' as [|f'']; [lia|].
+      cbn [drain andb]. rewrite (nonpubb_app_false _ _ x G). reflexivity. }
+  destruct (decode_step mi mc npi st s) as [[[[[it|]|e|p] st'] npi'] r] eqn:E.
+  - (* item *)
+    destruct (drain true f mi mc npi' st' r) as [[[[its' o'] st2] npi2] r2] eqn:D'.
+    cbn [rr_app app] in D. injection D as <- <- <- <- <-.
+    assert (Hm : (dmeas st' r < dmeas st s)%nat) by (apply (np_step_item _ _ _ _ _ _ _ _ _ [] G E)).
+    assert (Hf' : (dmeas st' r < f)%nat) by lia.
+    pose proof (IH st' npi' r Hf' _ _ _ _ _ D') as H.
+    destruct o'; try contradiction.
+    + destruct H as (G1 & E1 & Hx). split; [exact G1|]. split; [exact E1|].
+      intros x f' f'' Hf1 Hf2. destruct f'' as [|f'']; [lia|].
+      destruct (np_step_item _ _ _ _ _ _ _ _ _ x G E) as (Ex & _ & Gx).
+      cbn [drain andb]. rewrite Gx, Ex. cbn [negb].
+      rewrite (Hx x f' f'' Hf1) by (rewrite dmeas_app in *; lia).
+      rewrite rr_app_app. reflexivity.
+    + intros x f'' Hf2. destruct f'' as [|f'']; [lia|].
+      destruct (np_step_item _ _ _ _ _ _ _ _ _ x G E) as (Ex & _ & Gx).
+      cbn [drain andb]. rewrite Gx, Ex. cbn [negb].
+      rewrite (H x f'') by (rewrite dmeas_app in *; lia). reflexivity.
+    + intros x f'' Hf2. destruct f'' as [|f'']; [lia|].
+      destruct (np_step_item _ _ _ _ _ _ _ _ _ x G E) as (Ex & _ & Gx).
+      cbn [drain andb]. rewrite Gx, Ex. cbn [negb].
+      rewrite (H x f'') by (rewrite dmeas_app in *; lia). reflexivity.
+  - (* blocked *)
+    injection D as <- <- <- <- <-.
+    destruct (np_step_blocked _ _ _ _ _ _ _ _ G E) as (-> & G1 & E1 & Hm & Hx).
+    split; [exact G1|]. split; [exact E1|]. intros x f' f'' Hf1 Hf2.
+    destruct f'' as [|f'']; [lia|]. rewrite rr_app_nil.
+    rewrite <- (drain_fuel_irrel mi mc (S f'') f') by (rewrite ?dmeas_app in *; lia).
+    destruct (Hx x) as (Ex & [(-> & ->)|(Gx & Gx')]); [reflexivity|].
+    cbn [drain]. rewrite Ex, Gx, Gx'. reflexivity.
+  - (* error *)
+    injection D as <- <- <- <- <-. intros x f'' Hf2. destruct f'' as [|f'']; [lia|].
+    destruct (np_step_err _ _ _ _ _ _ _ _ _ x G E) as (Ex & Gx).
+    cbn [drain andb]. rewrite Gx, Ex. reflexivity.
+  - exfalso. exact (np_step_nopanic _ _ _ _ _ _ _ _ _ G E).
+Qed.
+
+(* --- feeding chunk by chunk from a blocked position is draining the concatenation *)
+Lemma feed_oneshot mi mc : forall cs st npi buf,
+  nonpubb st buf = true -> decode_step mi mc npi st buf = (Ok None, st, npi, buf) ->
+  feed true mi mc npi st buf cs =
+  drain true (drain_fuel (buf ++ concat cs)) mi mc npi st (buf ++ concat cs).
+Proof.
+  induction cs as [|c cs IH]; intros st npi buf G E.
+  - cbn [feed concat]. rewrite app_nil_r. unfold drain_fuel. cbn [drain andb]. rewrite G, E. reflexivity.
+  - cbn [feed concat]. rewrite app_assoc. set (s := buf ++ c).
+    destruct (drain true (drain_fuel s) mi mc npi st s) as [[[[its o] st1] npi1] r1] eqn:D.
+    pose proof (drain_app mi mc _ st npi s (dmeas_fuel st s) _ _ _ _ _ D) as H.
+    destruct o; try contradiction.
+    + destruct H as (G1 & E1 & Hx). rewrite (IH _ _ _ G1 E1).
+      symmetry. apply Hx; apply dmeas_fuel.
+    + symmetry. apply H. apply dmeas_fuel.
+    + symmetry. apply H. apply dmeas_fuel.
+Qed.
+
+(* C10 on the non-PUBLISH path: the items, the final status, state, flag and leftover bytes do not
+   depend on how the byte stream was cut into chunks (any max_in, any min_chunk) *)
+Theorem v5_frag_independent mi mc npi chunks :
+  feed true mi mc npi FrameHeader [] chunks = feed true mi mc npi FrameHeader [] [concat chunks].
+Proof.
+  rewrite !feed_oneshot by reflexivity. cbn [concat]. rewrite app_nil_r. reflexivity.
+Qed.
+
+(* --- the guard is only a way of stating the hypothesis "no PUBLISH was met" *)
+Lemma drain_guard_off mi mc f : forall st npi buf,
+  rr_status (drain true f mi mc npi st buf) <> SawPublish ->
+  drain false f mi mc npi st buf = drain true f mi mc npi st buf.
+Proof.
+  induction f as [|f IH]; intros st npi buf H; [reflexivity|]. cbn [drain andb] in *.
+  destruct (nonpubb st buf); cbn [negb] in *; [|exfalso; apply H; reflexivity].
+  destruct (decode_step mi mc npi st buf) as [[[[[it|]|e|p] st'] npi'] r]; try reflexivity.
+  rewrite rr_status_app in H. rewrite (IH _ _ _ H). reflexivity.
+Qed.
+
+Lemma feed_guard_off mi mc : forall cs st npi buf,
+  rr_status (feed true mi mc npi st buf cs) <> SawPublish ->
+  feed false mi mc npi st buf cs = feed true mi mc npi st buf cs.
+Proof.
+  induction cs as [|c cs IH]; intros st npi buf H; [reflexivity|]. cbn [feed] in *.
+  destruct (drain true (drain_fuel (buf ++ c)) mi mc npi st (buf ++ c)) as [[[[its o] st1] npi1] r1] eqn:D.
+  assert (Ho : o <> SawPublish).
+  { intros ->. apply H. reflexivity. }
+  rewrite drain_guard_off by (rewrite D; exact Ho). rewrite D.
+  destruct o; try reflexivity. rewrite rr_status_app in H. rewrite (IH _ _ _ H). reflexivity.
+Qed.
+
+Corollary v5_frag_independent_unguarded mi mc npi chunks :
+  rr_status (feed true mi mc npi FrameHeader [] [concat chunks]) <> SawPublish ->
+  feed false mi mc npi FrameHeader [] chunks = feed false mi mc npi FrameHeader [] [concat chunks].
+Proof.
+  intros H. rewrite (feed_guard_off _ _ [concat chunks]) by exact H.
+  rewrite <- v5_frag_independent in *. now apply feed_guard_off.
+Qed.
+
+(* sanity: two PINGREQ and a DISCONNECT cut in the middle of a frame *)
+Example frag_example :
+  feed false 0 0 false FrameHeader [] [[192; 0; 192]; [0; 224]; [1; 0]] =
+  ([DPacket PingRequest 0; DPacket PingRequest 0;
+    DPacket (Disconnect (mkDisconnect 0 None None None [])) 1], Blocked, FrameHeader, false, []).
+Proof. vm_compute. reflexivity. Qed.
+
+(* ================================================================== assumptions *)
+Print Assumptions v5_decode_total.
+Print Assumptions v5_decode_total_refuted.
+Print Assumptions v5_wf_preserved.
+Print Assumptions v5_reachable_total.
+Print Assumptions v5_step_prefix.
+Print Assumptions v5_no_stall.
+Print Assumptions v5_oversize_rejected_at_header.
+Print Assumptions v5_header_within_frame.
+Print Assumptions v5_unknown_property_props.
+Print Assumptions v5_dup_once_only_pair.
+Print Assumptions v5_unknown_reason_code_stream.
+Print Assumptions v5_zero_packet_id_stream.
+Print Assumptions v5_qos3_header.
+Print Assumptions v5_bad_utf8_props.
+Print Assumptions v5_inner_len_exceeds_rl_frame.
+Print Assumptions v5_frag_independent.
+Print Assumptions v5_frag_independent_unguarded.
